@@ -51,7 +51,7 @@ struct Hash {
 
 // ---------------------------------------------------------------- heap seam
 enum HeapPolicy { HEAP_IMMEDIATE = 0, HEAP_QUARANTINE = 1 };
-enum HeapViolation { HV_NONE = 0, HV_DOUBLE_FREE, HV_INVALID_FREE, HV_FORM_MISMATCH };
+enum HeapViolation { HV_NONE = 0, HV_DOUBLE_FREE, HV_INVALID_FREE, HV_FORM_MISMATCH, HV_OVERRUN };
 
 struct BlockInfo { uint64_t id; size_t size; bool array; bool sut; uint32_t run_epoch; };
 
@@ -60,6 +60,7 @@ void heap_begin_run(HeapPolicy policy, uint8_t fill_fresh, uint8_t fill_freed);
 size_t heap_end_run();
 size_t heap_live_sut_blocks();             // SUT blocks allocated in the current run and still live
 bool heap_lookup(const void *p, BlockInfo *out);   // p must be the base of a live block
+bool heap_redzones_intact(char *detail, size_t n);   // guard bytes around every live SUT block of this run (plain variant)
 bool heap_was_freed(const void *p);        // p is the base of a block freed earlier in this run (and not reused)
 // per-operation control
 void heap_op_begin(uint32_t fail_at /*0 = never; k = k-th SUT allocation of this op throws*/);
